@@ -17,6 +17,7 @@ import (
 
 	"github.com/theparanoids/crypki/proto"
 	"golang.org/x/crypto/ssh"
+	gproto "google.golang.org/protobuf/proto"
 
 	"github.com/theparanoids/ysshra/common"
 	"github.com/theparanoids/ysshra/config"
@@ -24,6 +25,7 @@ import (
 	"github.com/theparanoids/ysshra/gensign"
 	"github.com/theparanoids/ysshra/gensign/regular"
 	"github.com/theparanoids/ysshra/message"
+	"github.com/theparanoids/ysshra/verifharness/lib/ev"
 	"github.com/theparanoids/ysshra/verifharness/lib/gen"
 	"github.com/theparanoids/ysshra/verifharness/lib/wire"
 )
@@ -112,12 +114,25 @@ type Signer struct {
 	Agent *wire.Agent
 	// NonCert adds a plain public key to the reply
 	NonCert bool
+	// Scribble: after keeping its own copy, the signer edits the request it was handed (as a CA client
+	// wrapper may do): later requests must not be affected
+	Scribble bool
 }
 
 func (s *Signer) Sign(ctx context.Context, req *proto.SSHCertificateSigningRequest) ([]ssh.PublicKey, []string, error) {
 	s.mu.Lock()
 	idx := len(s.Calls)
-	rec := &SignReq{Req: req}
+	rec := &SignReq{Req: gproto.Clone(req).(*proto.SSHCertificateSigningRequest)}
+	if s.Scribble {
+		if req.Extensions != nil {
+			delete(req.Extensions, "permit-pty")
+			req.Extensions["permit-everything"] = "yes"
+		}
+		if len(req.Principals) > 0 {
+			req.Principals[0] = "scribbled-by-signer"
+		}
+		req.Validity = 1
+	}
 	if s.Agent != nil {
 		rec.ReqIdxAt = s.Agent.NumRequests()
 	}
@@ -235,15 +250,39 @@ func (r *Rig) Close() { r.Conn.Close() }
 
 // Run calls gensign.Run and converts an escaping panic into (nil, panicText).
 func Run(param *csr.ReqParam, handlers []gensign.Handler, signer csr.Signer) (err error, escaped string) {
-	defer func() {
-		if p := recover(); p != nil {
-			escaped = fmt.Sprint(p)
-		}
+	type res struct {
+		err     error
+		escaped string
+	}
+	ch := make(chan res, 1)
+	go func() {
+		defer func() {
+			if p := recover(); p != nil {
+				ch <- res{nil, fmt.Sprint(p)}
+			}
+		}()
+		ctx, cancel := context.WithTimeout(context.Background(), 30*time.Second)
+		defer cancel()
+		ch <- res{gensign.Run(ctx, param, handlers, signer), ""}
 	}()
-	ctx, cancel := context.WithTimeout(context.Background(), 30*time.Second)
-	defer cancel()
-	return gensign.Run(ctx, param, handlers, signer), ""
+	select {
+	case x := <-ch:
+		return x.err, x.escaped
+	case <-time.After(ev.OpTimeout()):
+		return nil, Hung
+	}
 }
+
+// EscapeSig names the violation for what Run reported as escaped.
+func EscapeSig(escaped string) string {
+	if escaped == Hung {
+		return "run-never-returns"
+	}
+	return "panic-escapes-run"
+}
+
+// Hung is what Run reports as "escaped" when gensign.Run did not return within the watchdog.
+const Hung = "gensign.Run did not return (neither an error nor success) within the watchdog"
 
 // Kind returns the gensign error kind name of err ("" for nil, "plain" for other errors).
 func Kind(err error) string {
